@@ -982,6 +982,11 @@ def value_shapes(t):
     yield ['a', [['n']]], True
     yield ['a', [sc[0], ['n'], sc[-1]]], True
     yield ['a', [['n'], sc[0]]], True
+    # several NULL entries (each must keep its place), repeated equal entries
+    yield ['a', [['n'], ['n']]], True
+    yield ['a', [['n'], sc[0], ['n']]], True
+    yield ['a', [sc[0], ['n'], ['n'], sc[-1], ['n']]], True
+    yield ['a', [sc[0], sc[0], sc[0]]], True
     yield ['a', list(sc)], True
 
 
